@@ -1,0 +1,12 @@
+//go:build verif
+
+// Contracts for the gocv verifier (comment-only file; see /verif/DESIGN.md §4).
+package hosts
+
+// Exec (C03): the response, if one is produced, is the locally generated answer to the context's query.
+//@ func (h *Hosts) Exec [C03]
+//@   requires h != nil && h.h != nil && qCtx != nil && qCtx.query != nil
+//@   modifies *
+//@   ensures result == nil && calls(hostsLookupMsg) == 1 && arg(hostsLookupMsg, 0, 1) == old(qCtx.query)
+//@   ensures ret(hostsLookupMsg, 0) != nil ==> calls(SetResponse) == 1 && arg(SetResponse, 0, 0) == qCtx && arg(SetResponse, 0, 1) == ret(hostsLookupMsg, 0)
+//@   ensures ret(hostsLookupMsg, 0) == nil ==> calls(SetResponse) == 0
